@@ -127,7 +127,7 @@ fn suite_objects<S: ShortGroupSignatureScheme>(em: &mut Emitter, rng: &mut Rng, 
         }
         rt(em, "ClaimData", false, &ClaimData::from(HashedClaim::from(vec![0u8, 255, 254])));
         // value catalogue: texts that look like another representation (hex, numbers, tags, white space)
-        for t in ["", "cafe", "CAFE", "5551234567", "00", "DEADBEEF", "68656c6c6f", "0x10", " a", "a ", "é", "123", "-1", "hex:00", "ut8:a", "null", "\"", "\\", "a\nb", "\u{0}"] {
+        for t in ["", "cafe", "CAFE", "5551234567", "00", "DEADBEEF", "68656c6c6f", "0x10", " a", "a ", "é", "123", "-1", "hex:00", "ut8:a", "null", "\"", "\\", "a\nb", "\u{0}", "a\n", "\ta\t", "line 1\nline 2\n", " ", "\n", "a\r\n"] {
             for pf in [true, false] {
                 let mut h = HashedClaim::from(t);
                 h.print_friendly = pf;
@@ -147,6 +147,19 @@ fn suite_objects<S: ShortGroupSignatureScheme>(em: &mut Emitter, rng: &mut Rng, 
                 }
             }
             rt(em, "ClaimData", false, &ClaimData::from(RevocationClaim::from(t)));
+            // the text form (the form a claim travels in inside an encrypt-and-decrypt proof)
+            for c in [ClaimData::from(RevocationClaim::from(t)), { let mut h = HashedClaim::from(t); h.print_friendly = true; h.into() }, { let mut h = HashedClaim::from(t); h.print_friendly = false; h.into() }] {
+                em.oracle_case(&format!("claim text {:?} {}", t, crate::claims::claim_str(&c)));
+                match call_total(|| c.to_text()) {
+                    Out::Ok(txt) => match call(|| ClaimData::from_text(&txt)) {
+                        Out::Ok(b) if b == c && b.to_scalar() == c.to_scalar() => {}
+                        Out::Ok(_) => em.violation("c19:claim-changed:text", format!("a claim with text {:?} decodes from its text form {:?} to a different claim", t, txt), json!({"text": t, "form": txt})),
+                        Out::Err => em.violation("c19:claim-undecodable:text", format!("a claim with text {:?} does not decode from its own text form {:?}", t, txt), json!({"text": t, "form": txt})),
+                        Out::Panic(m) => em.violation("c19:decode-panic:ClaimData:text", format!("from_text panicked on {:?}: {}", txt, m), json!({"form": txt})),
+                    },
+                    _ => em.violation("c19:encode-panic:ClaimData:text", format!("to_text panicked for text {:?}", t), json!({"text": t})),
+                }
+            }
         }
         for n in [isize::MIN, -1, 0, 1, isize::MAX] {
             rt(em, "ClaimData", false, &ClaimData::from(NumberClaim::from(n)));
